@@ -168,12 +168,19 @@ func (a *ChannelReestablish) Encode(w *bytes.Buffer, pver uint32) error {
 	// If the commit point wasn't sent, then we won't write out any of the
 	// remaining fields as they're optional.
 	if a.LocalUnrevokedCommitPoint == nil {
-		// However, we'll still write out the extra data if it's
-		// present.
-		//
-		// NOTE: This is here primarily for the quickcheck tests, in
-		// practice, we'll always populate this field.
-		return WriteBytes(w, a.ExtraData)
+		// Without the commit secret and point there is no place for
+		// the TLV extension either: whatever follows the heights is
+		// read back as the commit secret and point. Refuse a value
+		// that can't be decoded back instead of writing it.
+		if len(a.ExtraData) != 0 || a.LocalNonce.IsSome() ||
+			a.DynHeight.IsSome() || a.LocalNonces.IsSome() {
+
+			return fmt.Errorf("channel_reestablish: extension " +
+				"data can't be encoded without the commit " +
+				"point")
+		}
+
+		return nil
 	}
 
 	// Otherwise, we'll write out the remaining elements.
